@@ -104,6 +104,209 @@ assumption. -/
 def HashOK {S : Type} (hash : Key → S) : Prop :=
   ∀ h a b, hash ⟨h, a⟩ = hash ⟨h, b⟩ → a = b
 
+/-- The history without any cache: only the current engine is tracked (independent specification
+of what a rule-list filter answers). -/
+def RL.spec {S R V : Type} : (Key → R → V) → List (Op S R V) → List (Option V)
+  | _, [] => []
+  | e, .query k r :: ops => some (e k r) :: RL.spec e ops
+  | _, .refresh e' :: ops => none :: RL.spec e' ops
+  | e, .evict _ :: ops => none :: RL.spec e ops
+
+/-! ### The cache key (`internal.NewCacheKey`) -/
+
+/-- The five bytes written after the host: question type and class as little-endian 16-bit
+numbers, then the answer flag. -/
+def keyTail (qt cl : Nat) (isAns : Bool) : List Nat :=
+  [qt % 256, qt / 256 % 256, cl % 256, cl / 256 % 256, if isAns then 1 else 0]
+
+/-- The byte string that `NewCacheKey` feeds to `maphash`. -/
+def keyBytes (host : List Nat) (qt cl : Nat) (isAns : Bool) : List Nat := host ++ keyTail qt cl isAns
+
+/-! ### Safe search (`safesearch.Filter.FilterRequest`) -/
+
+/-- Only A, AAAA and HTTPS questions reach the rule list. -/
+def ssGate (qt : Nat) : Bool := qt == 1 || qt == 28 || qt == 65
+
+inductive SSOp (S R V : Type) where
+  /-- `FilterRequest` for host / question type by requester `r`. -/
+  | query (host : String) (qt : Nat) (r : R)
+  | refresh (e : Key → R → V)
+  | evict (slot : S)
+
+/-- `FilterRequest`: the gate, the (cached) `DNSResult` for `(host, qt, IN, false)`, then the result
+is built anew for the requester (`ProcessDNSRewrites` with the requester's message and constructor,
+`replaceRule`) — `post`. -/
+def RL.ssStep {S R V W : Type} [DecidableEq S] (hash : Key → S) (post : R → String → V → W)
+    (s : RL S R V) : SSOp S R V → RL S R V × Option W
+  | .query host qt r =>
+    if ssGate qt then
+      ((s.step hash (.query ⟨host, 2 * qt⟩ r)).1,
+       (s.step hash (.query ⟨host, 2 * qt⟩ r)).2.map (post r host))
+    else (s, none)
+  | .refresh e => ((s.step hash (.refresh e)).1, none)
+  | .evict slot => ((s.step hash (.evict slot)).1, none)
+
+def RL.ssRun {S R V W : Type} [DecidableEq S] (hash : Key → S) (post : R → String → V → W) :
+    RL S R V → List (SSOp S R V) → List (Option W)
+  | _, [] => []
+  | s, op :: ops => (s.ssStep hash post op).2 :: RL.ssRun hash post (s.ssStep hash post op).1 ops
+
+/-- Safe search without a cache: gate, current engine, result built for the requester. -/
+def ssSpec {S R V W : Type} (post : R → String → V → W) : (Key → R → V) → List (SSOp S R V) → List (Option W)
+  | _, [] => []
+  | e, .query host qt r :: ops =>
+    (if ssGate qt then some (post r host (e ⟨host, 2 * qt⟩ r)) else none) :: ssSpec post e ops
+  | _, .refresh e' :: ops => none :: ssSpec post e' ops
+  | e, .evict _ :: ops => none :: ssSpec post e ops
+
+def SSOpsClientFree {S R V : Type} : List (SSOp S R V) → Prop
+  | [] => True
+  | .refresh e :: ops => ClientFree e ∧ SSOpsClientFree ops
+  | _ :: ops => SSOpsClientFree ops
+
+/-! ### Small-step rule-list filter: `Refreshable` with its `RWMutex`
+
+`Refreshable.DNSResult` takes the read lock, then `filter.DNSResult` does `Get`, on a miss
+`MatchRequest` and `Set`; `Refreshable.Refresh` takes the write lock, clears the cache, swaps the
+engine.  `disc = true` is the lock discipline of the code; `disc = false` lets lookups and the
+refresh overlap freely (what happens when `Clear` or the swap are moved out of the critical section,
+or when the old and the new filter object share one cache). -/
+
+structure RThread (R V : Type) where
+  tid : Nat
+  key : Key
+  req : R
+  /-- `none`: holds the read lock, `Get` not done yet; `some none`: `Get` missed; `some (some v)`:
+  the engine returned `v`, `Set` not done yet. -/
+  phase : Option (Option V)
+
+/-- Writer phases. -/
+inductive WPhase (R V : Type) where
+  | idle
+  /-- holds the write lock, `Clear` not done yet -/
+  | locked (e : Key → R → V)
+  /-- `Clear` done, engine not swapped yet -/
+  | cleared (e : Key → R → V)
+
+structure RLS (S R V : Type) where
+  engine : Key → R → V
+  cache : Tbl S (Item V)
+  readers : List (RThread R V)
+  writer : WPhase R V
+
+inductive ROp (S R V : Type) where
+  /-- `f.mu.RLock()` -/
+  | rlock (tid : Nat) (k : Key) (r : R)
+  /-- `itemFromCache`; a hit returns (and releases the lock) -/
+  | get (tid : Nat)
+  /-- `engine.MatchRequest` -/
+  | mtch (tid : Nat)
+  /-- `cache.Set`, return, `RUnlock` -/
+  | set (tid : Nat)
+  /-- `f.mu.Lock()` in `Refresh` with the compiled new engine -/
+  | wlock (e : Key → R → V)
+  /-- `f.cache.Clear()` -/
+  | wclear
+  /-- `f.engine = …` and `Unlock` -/
+  | wswap
+  | evict (slot : S)
+
+def WPhase.isIdle {R V : Type} : WPhase R V → Bool
+  | .idle => true
+  | _ => false
+
+def findR {R V : Type} (ts : List (RThread R V)) (tid : Nat) : Option (RThread R V) :=
+  ts.find? (fun t => t.tid = tid)
+
+def dropR {R V : Type} (ts : List (RThread R V)) (tid : Nat) : List (RThread R V) :=
+  ts.filter (fun t => t.tid ≠ tid)
+
+def RLS.lookup {S R V : Type} (hash : Key → S) (s : RLS S R V) (k : Key) : Option V :=
+  match s.cache (hash k) with
+  | some it => if it.host = k.host then some it.val else none
+  | none => none
+
+def RLS.step {S R V : Type} [DecidableEq S] (disc : Bool) (hash : Key → S) (s : RLS S R V) :
+    ROp S R V → RLS S R V × Option V
+  | .rlock tid k r =>
+    if disc && !s.writer.isIdle then (s, none)
+    else ({ s with readers := ⟨tid, k, r, none⟩ :: dropR s.readers tid }, none)
+  | .get tid =>
+    match findR s.readers tid with
+    | some t =>
+      match t.phase with
+      | none =>
+        match s.lookup hash t.key with
+        | some v => ({ s with readers := dropR s.readers tid }, some v)
+        | none => ({ s with readers := { t with phase := some none } :: dropR s.readers tid }, none)
+      | some _ => (s, none)
+    | none => (s, none)
+  | .mtch tid =>
+    match findR s.readers tid with
+    | some t =>
+      match t.phase with
+      | some none =>
+        ({ s with readers := { t with phase := some (some (s.engine t.key t.req)) } :: dropR s.readers tid }, none)
+      | _ => (s, none)
+    | none => (s, none)
+  | .set tid =>
+    match findR s.readers tid with
+    | some t =>
+      match t.phase with
+      | some (some v) =>
+        ({ s with readers := dropR s.readers tid, cache := s.cache.put (hash t.key) ⟨v, t.key.host⟩ }, some v)
+      | _ => (s, none)
+    | none => (s, none)
+  | .wlock e =>
+    match s.writer with
+    | .idle => if disc && !s.readers.isEmpty then (s, none) else ({ s with writer := .locked e }, none)
+    | _ => (s, none)
+  | .wclear =>
+    match s.writer with
+    | .locked e => ({ s with writer := .cleared e, cache := Tbl.empty }, none)
+    | _ => (s, none)
+  | .wswap =>
+    match s.writer with
+    | .cleared e => ({ s with writer := .idle, engine := e }, none)
+    | _ => (s, none)
+  | .evict slot => ({ s with cache := s.cache.del slot }, none)
+
+def RLS.init {S R V : Type} (e : Key → R → V) : RLS S R V :=
+  { engine := e, cache := Tbl.empty, readers := [], writer := .idle }
+
+def RLS.final {S R V : Type} [DecidableEq S] (disc : Bool) (hash : Key → S) :
+    RLS S R V → List (ROp S R V) → RLS S R V
+  | s, [] => s
+  | s, op :: ops => RLS.final disc hash (s.step disc hash op).1 ops
+
+def RLS.run {S R V : Type} [DecidableEq S] (disc : Bool) (hash : Key → S) :
+    RLS S R V → List (ROp S R V) → List (Option V)
+  | _, [] => []
+  | s, op :: ops => (s.step disc hash op).2 :: RLS.run disc hash (s.step disc hash op).1 ops
+
+/-- Every engine a history installs is client-free. -/
+def ROpsClientFree {S R V : Type} : List (ROp S R V) → Prop
+  | [] => True
+  | .wlock e :: ops => ClientFree e ∧ ROpsClientFree ops
+  | _ :: ops => ROpsClientFree ops
+
+/-- The four small steps of one lookup / three of one refresh, run back to back. -/
+def RLS.atomic {S R V : Type} [DecidableEq S] (hash : Key → S) (s : RLS S R V) : Op S R V → RLS S R V × Option V
+  | .query k r =>
+    let s1 := (s.step true hash (.rlock 0 k r)).1
+    let g := s1.step true hash (.get 0)
+    match g.2 with
+    | some v => (g.1, some v)
+    | none =>
+      let s3 := (g.1.step true hash (.mtch 0)).1.step true hash (.set 0)
+      (s3.1, s3.2)
+  | .refresh e => ((((s.step true hash (.wlock e)).1.step true hash .wclear).1.step true hash .wswap).1, none)
+  | .evict sl => ((s.step true hash (.evict sl)).1, none)
+
+def RLS.atomicRun {S R V : Type} [DecidableEq S] (hash : Key → S) : RLS S R V → List (Op S R V) → List (Option V)
+  | _, [] => []
+  | s, op :: ops => (s.atomic hash op).2 :: RLS.atomicRun hash (s.atomic hash op).1 ops
+
 /-! ## Hash-prefix filter -/
 
 inductive Mode where
@@ -397,5 +600,60 @@ def Versioned : List Conf → List COp → Prop
     (∀ c' ∈ seen, c'.id = c.id → c'.upd ≤ c.upd ∧ (c'.upd = c.upd → c'.rules = c.rules)) ∧
       Versioned (c :: seen) ops
   | seen, .evict _ :: ops => Versioned seen ops
+
+/-! ### Small-step custom-filter storage: `Filters.Get` is `cache.Get` … compile … `cache.Set` -/
+
+/-- A `Get` that found no usable item and is compiling the caller's rules. -/
+structure CThread where
+  tid : Nat
+  conf : Conf
+deriving DecidableEq, Repr
+
+structure CUS where
+  cache : CU
+  threads : List CThread
+
+inductive CSOp where
+  /-- `Filters.Get` up to and including `f.get(c)`: returns at once when the filter is disabled, has
+  no rules, or a usable item is cached; otherwise the caller starts compiling. -/
+  | get (tid : Nat) (c : Conf)
+  /-- `NewImmutable`, `f.set`, return. -/
+  | set (tid : Nat)
+  | evict (id : String)
+
+def CUS.init : CUS := { cache := Tbl.empty, threads := [] }
+
+/-- The outer `Option` is "this step returns to a caller", the inner one is `Get`'s result. -/
+def CUS.step (s : CUS) : CSOp → CUS × Option (Option (List String))
+  | .get tid c =>
+    if !c.enabled || c.rules.isEmpty then (s, some none)
+    else match s.cache c.id with
+      | some it =>
+        if it.upd < c.upd then ({ s with threads := ⟨tid, c⟩ :: s.threads.filter (fun t => t.tid ≠ tid) }, none)
+        else (s, some (some it.rules))
+      | none => ({ s with threads := ⟨tid, c⟩ :: s.threads.filter (fun t => t.tid ≠ tid) }, none)
+  | .set tid =>
+    match s.threads.find? (fun t => t.tid = tid) with
+    | some t =>
+      ({ cache := s.cache.put t.conf.id ⟨t.conf.upd, t.conf.rules⟩,
+         threads := s.threads.filter (fun t => t.tid ≠ tid) }, some (some t.conf.rules))
+    | none => (s, none)
+  | .evict id => ({ s with cache := s.cache.del id }, none)
+
+def CUS.final : CUS → List CSOp → CUS
+  | s, [] => s
+  | s, op :: ops => CUS.final (s.step op).1 ops
+
+def CUS.run : CUS → List CSOp → List (Option (Option (List String)))
+  | _, [] => []
+  | s, op :: ops => (s.step op).2 :: CUS.run (s.step op).1 ops
+
+/-- `Versioned` for small-step histories: the order that counts is the order of the `Get` calls. -/
+def VersionedS : List Conf → List CSOp → Prop
+  | _, [] => True
+  | seen, .get _ c :: ops =>
+    (∀ c' ∈ seen, c'.id = c.id → c'.upd ≤ c.upd ∧ (c'.upd = c.upd → c'.rules = c.rules)) ∧
+      VersionedS (c :: seen) ops
+  | seen, _ :: ops => VersionedS seen ops
 
 end Agd.ResultCache
